@@ -68,6 +68,7 @@ def flush(run):
 
 def campaign(run, stage, want, gen):
     """gen(sess, rng) records calls; the trace specification judges them."""
+    run.sampled = True
     sess = Session()
     gen(sess, run.sub_rng(stage))
     validate_events(run, sess.events, want, stage)
